@@ -398,6 +398,18 @@ def decode (cfg : Cfg) (classes : List Bytes) (info : Info) (sch : List Sch) (by
   | .ok items s => if closeOk s then .ok (fixItems s.table items) else .error .oob
   | .err e s => if !e.reported then .error e else if closeOk s then .error e else .error .oob
 
+/-! ## a `const_str` through `StringDictionary::ArchiveString` (stream part; the dictionary part is `Dict.lean`) -/
+
+/-- `StringDictionary::ArchiveString`, write side: `hasString`, then the text -/
+def keyCalls : Option Bytes → List Item
+  | none => [.prim .byte 0]
+  | some bs => [.prim .byte 1, .str bs]
+
+/-- `StringDictionary::ArchiveString`, load side up to the text (`uint8_t hasString;` is uninitialised) -/
+def readKey (cfg : Cfg) (s : RS) : Res (Option Bytes) :=
+  (readData cfg (Prim.byte).tag 1 none s).bind fun hb s =>
+    if unle hb = 0 then .ok none s else (readStr cfg [] s).bind fun bs s => .ok (some bs) s
+
 /-! ## byte classes of an archive (which positions the substitution theorems speak about) -/
 
 inductive PC
